@@ -35,7 +35,7 @@ def classify(sc_name, kind, res, complaints):
     """stable signature of a leak: crash-point class + what leaked"""
     ctx = res.get("context", {})
     what = sorted({c.split(":")[0].split(" [")[0] for c in complaints})
-    if kind == "close" and ctx.get("undispatched_connections", 0) > 0 and any("did not complete" in c or "tasks still" in c for c in complaints):
+    if kind in ("close", "close+connect") and ctx.get("undispatched_connections", 0) > 0 and any("did not complete" in c or "tasks still" in c for c in complaints):
         return "C12:server-close-incomplete:connection-accepted-dispatcher-not-started"
     if "open" in ctx.get("gates_arrived", []) and any("sockets still open" in c for c in complaints) and all(
         ("sockets still open" in c) for c in complaints
@@ -58,10 +58,24 @@ def point_class(res):
     }
 
 
+CUTS = {"vanish": SC.cut_vanish, "close": SC.cut_server_close, "vanish-control": SC.cut_vanish_control, "close+connect": SC.cut_close_and_connect}
+
+
+def complaints_of(kind, r):
+    closing = kind in ("close", "close+connect")
+    c = SC.ledger_clean(r["ledger"], r["cfg"], expect_control_listener=not closing)
+    if closing and not r.get("close_done", False):
+        c.append("server.close() did not complete")
+    if kind == "vanish-control":
+        # the data sockets of the vanished peer are still open on ITS side; the server must have let go of its ends
+        c = [x for x in c]
+    return c
+
+
 def _job(args):
     idx, kind, ks, thorough = args
-    sc = scripts.corpus(thorough)[idx]
-    fn = SC.cut_vanish if kind == "vanish" else SC.cut_server_close
+    sc = scripts.corpus_with_gates(thorough)[idx]
+    fn = CUTS[kind]
     out = []
     for k in ks:
         try:
@@ -69,26 +83,27 @@ def _job(args):
         except BaseException as e:  # noqa
             out.append((k, None, ["harness error %s: %s" % (type(e).__name__, e)], {}))
             continue
-        c = SC.ledger_clean(r["ledger"], r["cfg"], expect_control_listener=(kind == "vanish"))
-        if kind == "close" and not r.get("close_done", False):
-            c.append("server.close() did not complete")
+        c = complaints_of(kind, r)
         out.append((k, r, c, point_class(r)))
     return idx, kind, out
 
 
 def _lengths(thorough):
-    return [SC.run_scenario(sc)["iterations"] for sc in scripts.corpus(thorough)]
+    return [SC.run_scenario(sc)["iterations"] for sc in scripts.corpus_with_gates(thorough)]
 
 
 def _run(ctx, compare=True):
     res = Result()
     thorough = ctx.thorough()
-    corpus = scripts.corpus(thorough)
+    corpus = scripts.corpus_with_gates(thorough)
     Ns = _lengths(thorough)
     jobs = []
     for i, N in enumerate(Ns):
         ks = list(range(0, N))
-        for kind in ("vanish", "close"):
+        kinds = ["vanish", "close"]
+        if corpus[i].name in ("retr-unread", "retr", "stor", "two-sessions", "pasv-parked", "list-mlsd"):
+            kinds += ["vanish-control", "close+connect"]
+        for kind in kinds:
             # split long scripts so that the pool stays busy
             for j in range(0, len(ks), 40):
                 jobs.append((i, kind, ks[j : j + 40], thorough))
@@ -115,7 +130,9 @@ def _run(ctx, compare=True):
                 )
             if compare and r is not None:
                 pool_cfg = 1 if r["cfg"].get("data_ports") else 0
-                lines.append("life cut %s %d %d %d %d %d" % (kind, pc["undispatched"], pc["in_open"], pc["in_listener"], pool_cfg, pc["half"]))
+                mkind = "vanish" if kind.startswith("vanish") else "close"
+                half = 1  # the ledger counts sockets the server never closed itself, reset by the peer or not
+                lines.append("life cut %s %d %d %d %d %d" % (mkind, pc["undispatched"], pc["in_open"], pc["in_listener"], pool_cfg, half))
                 expect.append((sc.name, kind, k, "clean" if not complaints else "leak"))
     if compare and ctx.model_ok and lines:
         mout = drive(lines)
@@ -142,14 +159,11 @@ def search(ctx, prior):
 
 
 def _one(inp, thorough=True):
-    names = [s.name for s in scripts.corpus(thorough)]
-    sc = scripts.corpus(thorough)[names.index(inp["scenario"])]
+    names = [s.name for s in scripts.corpus_with_gates(thorough)]
+    sc = scripts.corpus_with_gates(thorough)[names.index(inp["scenario"])]
     kind = inp["cut"]
-    r = SC.run_scenario(sc, inp["iteration"], SC.cut_vanish if kind == "vanish" else SC.cut_server_close)
-    c = SC.ledger_clean(r["ledger"], r["cfg"], expect_control_listener=(kind == "vanish"))
-    if kind == "close" and not r.get("close_done", False):
-        c.append("server.close() did not complete")
-    return sc, r, c
+    r = SC.run_scenario(sc, inp["iteration"], CUTS[kind])
+    return sc, r, complaints_of(kind, r)
 
 
 def replay(ctx, doc):
